@@ -111,6 +111,17 @@ def step (ws : List String) : Option String :=
         some ("ok " ++ " ".intercalate ((Supervisor.run stop lat gs ⟨0, Policy.Backoff.init mn inc⟩ outs).map showEv))
       | none => some "bad-op"
     | _, _, _, _, _ => some "bad-op"
+  | "supc" :: mn :: inc :: stop :: early :: outs =>
+    match mn.toNat?, inc.toNat?, outs.mapM parseOutcome with
+    | some mn, some inc, some outs =>
+      let stop := if stop = "-" then some none else stop.toNat?.map some
+      match stop with
+      | some stop =>
+        some ("ok " ++ " ".intercalate ((Supervisor.conns stop (early == "1") ⟨0, Policy.Backoff.init mn inc⟩ outs).map fun
+          | .opened t => s!"opened@{t}"
+          | .closed t => s!"closed@{t}"))
+      | none => some "bad-op"
+    | _, _, _ => some "bad-op"
   | ["keeper", i, t, s, e, arr] =>
     match i.toNat?, t.toNat?, s.toNat?, e.toNat?, parseNats arr with
     | some i, some t, some s, some e, some arr =>
